@@ -6,6 +6,7 @@ import (
 	"flag"
 	"fmt"
 	"github.com/simpleiot/simpleiot/server"
+	"math"
 	"math/rand"
 	"os"
 	"sort"
@@ -137,11 +138,21 @@ func init() {
 								}
 							}
 							logEv(map[string]any{"ev": "Ret", "c": cname, "op": k, "ok": err == nil && len(ns) == 1, "res": r, "err": fmt.Sprint(err)})
-						case x == 11: // a request the store refuses (first edge point of an edge without a node type):
+						case x == 11: // a request the store refuses (four kinds, taking turns):
 							// answered with an error - logged as a "verify"-kind call that is ok when refused
 							logEv(map[string]any{"ev": "Call", "c": cname, "op": k, "kind": "verify", "id": "", "ts": 0})
 							p := data.Point{Type: data.PointTypeTombstone, Value: 0, Time: time.Now(), Origin: cname}
-							err := client.SendEdgePoint(nc, fmt.Sprintf("ghost-%d-%d-%d", h, c, k), n, p, true)
+							var err error
+							switch k % 4 {
+							case 0: // first edge point of an edge without a node type
+								err = client.SendEdgePoint(nc, fmt.Sprintf("ghost-%d-%d-%d", h, c, k), n, p, true)
+							case 1: // an edge that would put the root below one of its children (a cycle)
+								err = client.SendEdgePoints(nc, in.root.ID, n, data.Points{p, {Type: data.PointTypeNodeType, Text: "device", Origin: cname}}, true)
+							case 2: // a value the store cannot hold
+								err = client.SendNodePoint(nc, n, data.Point{Type: "nan", Key: "0", Time: time.Now(), Value: math.NaN(), Origin: cname}, true)
+							default: // a node below itself
+								err = client.SendEdgePoints(nc, n, n, data.Points{p, {Type: data.PointTypeNodeType, Text: "device", Origin: cname}}, true)
+							}
 							refused := err != nil && !strings.Contains(err.Error(), "timeout")
 							logEv(map[string]any{"ev": "Ret", "c": cname, "op": k, "ok": refused, "res": map[string]int{}, "err": fmt.Sprint(err)})
 						case x == 10: // maintenance request (verification that repairs), served by another subscription
